@@ -611,3 +611,38 @@ fn _touch() {
     let mut r = TestRunner::deterministic();
     let _ = proptest::num::u32::ANY.new_tree(&mut r).map(|t| t.current());
 }
+
+
+/// Runs another engine and reports its violations of property `from` as violations of `to` (the same defect
+/// class seen from a second property), with the original signature kept as suffix.
+pub struct Reattributed<E: Engine> {
+    pub inner: E,
+    pub from: &'static str,
+    pub to: &'static str,
+    pub label: &'static str,
+}
+
+impl<E: Engine> Engine for Reattributed<E> {
+    type Case = E::Case;
+    fn name(&self) -> &'static str {
+        self.inner.name()
+    }
+    fn tape_lens(&self) -> Vec<usize> {
+        self.inner.tape_lens()
+    }
+    fn gen(&self, tapes: &[Vec<u32>]) -> Self::Case {
+        self.inner.gen(tapes)
+    }
+    fn rule(&self) -> String {
+        format!("{} — violations of {} found here are reported under {} ({})", self.inner.rule(), self.from, self.to, self.label)
+    }
+    fn shrink_iters(&self) -> u32 {
+        self.inner.shrink_iters()
+    }
+    fn run(&self, case: &Self::Case) -> Outcome {
+        let mut out = self.inner.run(case);
+        let extra: Vec<Violation> = out.violations.iter().filter(|v| v.property == self.from).map(|v| Violation::new(self.to, &v.oracle, format!("{}/{}/{}", self.to, self.label, v.signature), v.detail.clone())).collect();
+        out.violations.extend(extra);
+        out
+    }
+}
